@@ -15,7 +15,14 @@ import (
 	"golang.org/x/tools/go/ssa/ssautil"
 )
 
-const repoDir = "/repo"
+// repoDir is /repo for every registered check. GOSMT_REPO_DIR is used only by seeded/ptry.sh, which runs a
+// check against a scratch worktree carrying a seeded change so that several trials can run side by side.
+var repoDir = func() string {
+	if d := os.Getenv("GOSMT_REPO_DIR"); d != "" {
+		return d
+	}
+	return "/repo"
+}()
 const modPath = "github.com/jf-tech/omniparser"
 
 // buildOverlay maps /verif/harness/<rel>/<file>.go to /repo/<rel>/zz_verif_<file>.go
